@@ -67,7 +67,7 @@ def run(c):
     if "CALL_REJECTED" not in r.out:
         raise vf.FrameworkError("canary accepted")
     c.cov["canary_rejected"] = True
-    c.assumptions += ["allocation bound 32 MiB + 64 x input length (debug/pe reads declared tables through 10 MiB chunks); time bound 3 s + 20 ms per KiB; watchdog 12 s (quick) / 30 s (thorough) per call, 10 min per series",
+    c.assumptions += ["allocation bound 32 MiB + 64 x input length (debug/pe reads declared tables through 10 MiB chunks); time bound 3 s + 20 ms per KiB; watchdog 12 s (quick) / 30 s (thorough) per call, 8 x that per series",
                       "all byte strings are sampled: exhaustive over the relation classes and truncation points, seeded over raw mutations"]
 
 
